@@ -19,9 +19,13 @@ for m in sorted(glob.glob(os.path.join(V, 'seeded', '*', 'meta.json'))):
     d = json.load(open(m))
     rows.append('| %s | %s | %s | %s | %s |\n' % (d.get('id', os.path.basename(os.path.dirname(m))), ', '.join(d.get('files', [])), esc(d.get('what', ''))[:300], esc(d.get('needs', ''))[:260], esc(d.get('caught_by', ''))))
 t_seeded = '| id | files | change | needs, to manifest | caught by |\n|---|---|---|---|---|\n' + ''.join(rows)
+man = json.load(open(os.path.join(V, 'MANIFEST.json')))
+t_status = '| id | level claimed | what is proved and what ties it to the code (MANIFEST level text) | limits (level note) |\n|---|---|---|---|\n' + ''.join(
+    '| %s | %s | %s | %s |\n' % (c['property_id'], c['level_claimed']['category'], esc(c['level_claimed']['text']), esc(c.get('level_note', ''))) for c in man['checks'])
+t_status += '\nNot claimed: ' + '; '.join('%s (%s)' % (n['property_id'], esc(n['reason'])) for n in man.get('not_applicable', [])) + '\n'
 p = os.path.join(V, 'DESIGN.md')
 s = open(p).read()
-for name, tbl in (('FIXED', t_fixed), ('KNOWN', t_known), ('SEEDED', t_seeded)):
+for name, tbl in (('FIXED', t_fixed), ('KNOWN', t_known), ('SEEDED', t_seeded), ('STATUS', t_status)):
     b, e = '<!-- BEGIN:%s -->' % name, '<!-- END:%s -->' % name
     if b in s:
         s = s[:s.index(b) + len(b)] + '\n' + tbl + s[s.index(e):]
